@@ -630,7 +630,20 @@ func (st *fstate) applyCall(instr ssa.Instruction, common *ssa.CallCommon, resul
 				}
 				for p := range r.isDeep {
 					if p < len(cargs) {
-						st.add(result, st.load(st.get(cargs[p]), nil))
+						// memory loaded from the argument at any depth
+						direct := st.get(cargs[p])
+						deep := nset{}
+						for n := range st.reach(direct) {
+							if !direct[n] || n.kind == "pd" {
+								deep[n] = true
+							}
+						}
+						for n := range direct {
+							if n.kind == "ps" {
+								deep[st.pd[n.idx]] = true
+							}
+						}
+						st.add(result, deep)
 					}
 				}
 				for p := range r.reach {
